@@ -26,7 +26,6 @@ From Coq Require Import ZArith List Bool.
 From SP Require Import Base.Sat Base.Bits Design.Flat Design.Layout.
 From SP Require Import Encode.Compile Encode.CodeSem Encode.Generic Encode.CompileCorollaries Encode.Totality.
 From SP Require Core.Card Sample.Decode Sample.DecodeProofs Design.LayoutWf Sample.DecodeWf.
-From SP Require Random.Enum Random.Frag Random.Frag2Thms.
 
 Theorem C08_compile_total_f1 :
   forall fb : flat, in_f1 fb = true -> (0 < T fb)%nat -> exists b, compile fb = COk b.
@@ -76,18 +75,15 @@ Example C08_short_window_example :
                 apply_exactlykinarow ex_stroop 5 0 0 None 100%Z = COk c2.
 Proof. exact inarow_short_example. Qed.
 
-(** RandomGen: on the fragment [Frag.frag2] (Properties/C04.v) the model of
-    [UCSolutionEnumerator] / [RandomGen.__sample] (Random/Enum.v) returns no error
-    value: the enumerator is built, the key list is listed, every key is decoded
-    to a candidate and the rejection test returns a verdict on it (no exception
-    constructor, in particular no fuel exhaustion of the memoised counter:
-    C13 totality). *)
-Theorem C08_random_total_frag2 : forall (fb : flat), Random.Frag.frag2 fb = true ->
+(** RandomGen, every design: once the partition of the design ([enum_base_of]) and the filter of the source
+    combinations ([valid_sources]; the known KeyError of the derived-source chain arises there) have succeeded and the
+    crossing is not empty, the rest of [UCSolutionEnumerator.__init__] (both [__count_solutions] calls) and the listing
+    of all keys return: no exception constructor and no fuel exhaustion (C13 totality). *)
+Theorem C08_random_enumerator_total : forall (fb : flat) (eb : Random.Enum.enum_base) (vs : list (list nat)),
+  Random.Enum.enum_base_of fb = Random.Enum.ROk eb -> Random.Enum.valid_sources fb eb = Random.Enum.ROk vs ->
+  Random.Enum.eb_csize eb <> 0%Z ->
   exists (en : Random.Enum.enumerator) (ks : list Random.Enum.key),
     Random.Enum.make_enumerator fb = Random.Enum.ROk en /\ Random.Enum.all_keys fb en = Random.Enum.ROk ks /\
-    forall k, In k ks ->
-      exists (r : Random.Enum.run) (v : bool),
-        Random.Enum.decode_with fb en k = Random.Enum.ROk r /\
-        Random.Enum.are_constraints_violated fb en r = Random.Enum.ROk v.
-Proof. exact Random.Frag2Thms.f2_total. Qed.
-Print Assumptions C08_random_total_frag2.
+    Random.Enum.en_base en = eb /\ Random.Enum.en_valid en = vs.
+Proof. exact Random.KeysCount.enumerator_total. Qed.
+Print Assumptions C08_random_enumerator_total.
